@@ -114,7 +114,8 @@ class CHECK(core.Check):
                   "the state a timer-driven reopen leaves, a listening server of latency k and k-1 calls before the next expiry "
                   "=> connected after k calls, bare/stack/patron), C27_stack_reconnects_after_cutoff, "
                   "C27_patron_reconnects_after_cutoff (k+1 / k calls from the first call at which the timer has expired), "
-                  "C27_timer_reopen_restarts (that call leaves exactly that state), C27_reports_live_addresses (invariant over all "
+                  "C27_timer_reopen_restarts(_any) (that call leaves exactly that state, from any unconnected state), "
+                  "C27_bare_reconnects_after_timer (end to end for a client whose attempts failed), C27_reports_live_addresses (invariant over all "
                   "histories), C27_stack_local_ha, C27_non_reconnectable_stays_closed (all histories of service calls). Full "
                   "statement C27_full is false on the code: C27_counterexample_livelock (D28) and "
                   "C27_counterexample_bare_stays_cut_off (D27) are known findings.")
@@ -401,14 +402,27 @@ class CHECK(core.Check):
         return False
 
     def shrink_candidates(self, case):
+        """smaller variants that stay OUTSIDE the regions of the known findings (a shrunk replay must not drift
+        into an input on which the recorded misbehaviour explains the failure)"""
+        cands = []
         pre = case["pre"]
         for i in range(len(pre)):
-            yield dict(case, pre=pre[:i] + pre[i + 1:])
+            cands.append(dict(case, pre=pre[:i] + pre[i + 1:]))
         lis = case.get("listen")
         if lis and len(lis["dts"]) > 1:
-            yield dict(case, listen={"k": lis["k"], "dts": lis["dts"][:-1]})
+            cands.append(dict(case, listen={"k": lis["k"], "dts": lis["dts"][:-1]}))
             if lis["k"] > 1:
-                yield dict(case, listen={"k": lis["k"] - 1, "dts": lis["dts"]})
+                cands.append(dict(case, listen={"k": lis["k"] - 1, "dts": lis["dts"]}))
+        cands = [c for c in cands if self.requests(c) != ["bad-request"]]
+        if not cands:
+            return
+        lines = []
+        for c in cands:
+            lines += [self._req(c, "region D27"), self._req(c, "region D28")]
+        rep = core.Driver(self.ENGINE).run(lines)
+        for i, c in enumerate(cands):
+            if rep[2 * i] == "false" and rep[2 * i + 1] == "false":
+                yield c
 
     # ---- extra evidence: down/up schedule over real loopback sockets
     def extra_evidence(self):
